@@ -117,7 +117,8 @@ namespace TrRouting
               if (!reachedAtLeastOneAccessNode &&  nodeDepartureInNodesAccessIte != nodesAccess.end() &&  nodeDepartureInNodesAccessIte->second.time != -1) // check if the departure node is accessable
               {
                 reachedAtLeastOneAccessNode      = true;
-                tentativeAccessNodeDepartureTime = connectionDepartureTime;
+                // the traveller has to be at the node the minimum waiting time of this connection before it leaves
+                tentativeAccessNodeDepartureTime = connectionDepartureTime - connectionMinWaitingTimeSeconds;
 
               }
               footpathIndex = 0;
